@@ -33,3 +33,14 @@ Proof.
   split; [reflexivity|]. split; [intros ? ? ? ? ? ?; reflexivity|].
   intros id sh em cf k v _. apply agree_refl.
 Qed.
+
+(* the linker over the one-lag submodel: its own lags are 1, so period 0 (either spelling) is rejected, nothing changes *)
+Definition exL_core1 : comp float := mkComp (mkDesc [] [] 1%nat 0%nat) (mkState [] [Unsolved; Unsolved; Unsolved; Unsolved] [-1; -1; -1; -1] []).
+Definition exL_s1 : lstate float := mkL exL_core1 [(7%nat, exL_comp)] [].
+Example exL_infeasible :
+  min_iter (ex_o 0) <= max_iter (ex_o 0) /\
+  py_pos (length (status (c_st (l_core exL_s1)))) (-4) = Some 0%nat /\
+  feasible (c_desc (l_core exL_s1)) (length (status (c_st (l_core exL_s1)))) 0 = false /\
+  nth_error (l_subs exL_s1) 0 = Some (7%nat, exL_comp) /\
+  feasible (c_desc (l_core exL_s1)) (length (status (c_st (l_core exL_s1)))) 2 = true.
+Proof. repeat split; cbn; lia. Qed.
